@@ -199,6 +199,133 @@ theorem model_satisfies_oracle (me : Self) (evs : List Ev) (client : Addr) (opco
     have hd : ¬ (rcodeSuccess = rcodeNameError) := by decide
     simp [h0, hd]
 
+/-! ### Whole messages: `parseQuery` over *all* questions of a message
+
+Through `handleDnsRequest` only the first question reaches `parseQuery` (miekg `SetReply`), but
+`parseQuery` itself walks every question of the message it is given, accumulating answers and the
+"some name is known" flag; the property is stated for multi-question messages, so the theorems are
+proved for arbitrary question lists `qs` (the `handle` theorems above are the case `qs.take 1`). -/
+
+theorem parseQuery_answers_ok (s : St) (client : Addr) (qs : List Question) (a : Answer)
+    (h : a ∈ (parseQuery s client qs).answers) : AnsOK s client qs a := by
+  rw [parseQuery_answers] at h
+  exact parseLoop_answers s client qs qs [] false (fun _ h => h) (fun _ h => by simp at h) a h
+
+/-- Every A answer to a message, after any history, belongs to one of its A questions and carries an
+IPv4 address authentic for that name. -/
+theorem pq_a_answers_from_certs (me : Self) (evs : List Ev) (client : Addr) (qs : List Question)
+    (name : Name) (addr : Addr) (h : Answer.a name addr ∈ (parseQuery (run me evs) client qs).answers) :
+    addr.fam = .v4 ∧ authentic (selfAfter me evs) evs name addr = true ∧
+      ∃ q ∈ qs, q.qtype = typeA ∧ q.name = name := by
+  have inv := inv_run me evs
+  obtain ⟨hget, hq⟩ := parseQuery_answers_ok _ _ _ _ h
+  obtain ⟨hf, hsrc⟩ := inv.src4 (get_mem hget)
+  exact ⟨hf, authentic_of_src hsrc, hq⟩
+
+theorem pq_aaaa_answers_from_certs (me : Self) (evs : List Ev) (client : Addr) (qs : List Question)
+    (name : Name) (addr : Addr) (h : Answer.aaaa name addr ∈ (parseQuery (run me evs) client qs).answers) :
+    addr.fam = .v6 ∧ authentic (selfAfter me evs) evs name addr = true ∧
+      ∃ q ∈ qs, q.qtype = typeAAAA ∧ q.name = name := by
+  have inv := inv_run me evs
+  obtain ⟨hget, hq⟩ := parseQuery_answers_ok _ _ _ _ h
+  obtain ⟨hf, hsrc⟩ := inv.src6 (get_mem hget)
+  exact ⟨hf, authentic_of_src hsrc, hq⟩
+
+/-- Every TXT answer to a message goes to a local client, belongs to one of its TXT questions, and
+carries the certificate of the owner of the address asked for. -/
+theorem pq_txt_only_local (me : Self) (evs : List Ev) (client : Addr) (qs : List Question)
+    (name : Name) (c : CertId) (h : Answer.txt name c ∈ (parseQuery (run me evs) client qs).answers) :
+    isLocal (selfAfter me evs) client = true ∧
+      ∃ q ∈ qs, q.qtype = typeTXT ∧ q.name = name ∧
+        ∃ ip, q.parsed = some ip ∧ certOwns (selfAfter me evs) evs ip c = true := by
+  have inv := inv_run me evs
+  obtain ⟨hloc, q, hq, ht, hn, hc⟩ := parseQuery_answers_ok _ _ _ _ h
+  rw [isLocal_eq, inv.self_eq] at hloc
+  exact ⟨hloc, q, hq, ht, hn, queryCert_owns inv hc⟩
+
+/-- the reply code of `parseQuery` is NOERROR or NXDOMAIN. -/
+theorem pq_rcode_cases (s : St) (client : Addr) (qs : List Question) :
+    (parseQuery s client qs).rcode = rcodeSuccess ∨ (parseQuery s client qs).rcode = rcodeNameError := by
+  simp only [parseQuery]; split <;> simp
+
+/-- NXDOMAIN only if *no* question of the message names a known name (and then the answer is empty),
+in whatever order the questions come and whatever their types. -/
+theorem pq_nxdomain_only_unknown (s : St) (client : Addr) (qs : List Question)
+    (h : (parseQuery s client qs).rcode = rcodeNameError) :
+    (parseQuery s client qs).answers = [] ∧ ∀ q ∈ qs, nameExists s q.name = false := by
+  simp only [parseQuery] at h ⊢
+  split at h
+  · rename_i hc
+    simp only [hc, if_true]
+    simp only [Bool.and_eq_true, Bool.not_eq_true', List.isEmpty_iff] at hc
+    obtain ⟨⟨h1, h2⟩, h3⟩ := hc
+    refine ⟨h2, ?_⟩
+    have := parseLoop_noname s client qs [] false (by rw [Prod.ext_iff]; exact ⟨h3, h1⟩)
+    exact this.2
+  · simp [rcodeSuccess, rcodeNameError] at h
+
+/-- … hence one known name anywhere in the message keeps the reply NOERROR (NODATA if nothing is
+answered). This is the statement the seeded change C44-2 breaks (a later TXT/other-type question
+for an unknown name overwrote the flag). -/
+theorem pq_known_name_noerror (s : St) (client : Addr) (qs : List Question) (q : Question) (hq : q ∈ qs)
+    (hk : nameExists s q.name = true) : (parseQuery s client qs).rcode = rcodeSuccess := by
+  rcases pq_rcode_cases s client qs with h | h
+  · exact h
+  · have := (pq_nxdomain_only_unknown s client qs h).2 q hq
+    rw [hk] at this; cases this
+
+/-- the same at history level ("known" = FQDN of a certificate seen in a handshake since DNS was last
+disabled, or of the current own certificate). -/
+theorem pq_nxdomain_only_unknown_names (me : Self) (evs : List Ev) (client : Addr) (qs : List Question)
+    (h : (parseQuery (run me evs) client qs).rcode = rcodeNameError) :
+    ∀ q ∈ qs, known me evs q.name = false := by
+  intro q hq
+  rw [known_eq_nameExists]
+  exact (pq_nxdomain_only_unknown _ client qs h).2 q hq
+
+theorem pq_known_name_nodata (me : Self) (evs : List Ev) (client : Addr) (qs : List Question) (q : Question)
+    (hq : q ∈ qs) (hk : known me evs q.name = true) :
+    (parseQuery (run me evs) client qs).rcode = rcodeSuccess :=
+  pq_known_name_noerror _ client qs q hq (by rw [← known_eq_nameExists]; exact hk)
+
+/-- The model's reply to a whole message passes the complete property oracle of the correspondence
+driver after every history. -/
+theorem pq_satisfies_oracle (me : Self) (evs : List Ev) (client : Addr) (qs : List Question) :
+    respViolation me evs client qs (parseQuery (run me evs) client qs) = none := by
+  have hall : ∀ a ∈ (parseQuery (run me evs) client qs).answers,
+      answerOK (selfAfter me evs) evs client qs a = true := by
+    intro a ha
+    cases a with
+    | a name addr =>
+      obtain ⟨h1, h2, q, hq, h3, h4⟩ := pq_a_answers_from_certs me evs client qs name addr ha
+      simp only [answerOK, h1, h2, Bool.and_true, Bool.true_and]
+      exact Bool.and_eq_true_iff.mpr ⟨by decide, List.any_eq_true.mpr ⟨q, hq, by simp [h3, h4]⟩⟩
+    | aaaa name addr =>
+      obtain ⟨h1, h2, q, hq, h3, h4⟩ := pq_aaaa_answers_from_certs me evs client qs name addr ha
+      simp only [answerOK, h1, h2, Bool.and_true, Bool.true_and]
+      exact Bool.and_eq_true_iff.mpr ⟨by decide, List.any_eq_true.mpr ⟨q, hq, by simp [h3, h4]⟩⟩
+    | txt name c =>
+      obtain ⟨h1, q, hq, h3, h4, ip, h5, h6⟩ := pq_txt_only_local me evs client qs name c ha
+      simp only [answerOK, h1, Bool.true_and]
+      exact List.any_eq_true.mpr ⟨q, hq, by simp [h3, h4, h5, h6]⟩
+  have hfind : (parseQuery (run me evs) client qs).answers.find?
+      (fun a => !answerOK (selfAfter me evs) evs client qs a) = none := by
+    rw [List.find?_eq_none]
+    intro a ha
+    simp [hall a ha]
+  unfold respViolation
+  simp only []
+  rw [hfind]
+  simp only
+  rcases pq_rcode_cases (run me evs) client qs with h0 | hrc
+  · have hd : ¬ (rcodeSuccess = rcodeNameError) := by decide
+    simp [h0, hd]
+  · have hnx := pq_nxdomain_only_unknown _ client qs hrc
+    have hkn := pq_nxdomain_only_unknown_names me evs client qs hrc
+    have hq : qs.find? (fun q => known me evs q.name) = none := by
+      rw [List.find?_eq_none]; intro q hq; simp [hkn q hq]
+    simp [hrc, hnx.1, hq]
+
 /-- Renaming the own certificate withdraws the previously seeded own name: after a `renew` under a
 different name on an enabled responder, the old own name has no record at all (unless … nothing: even
 a peer's record under that name is dropped). This is the statement the seeded change C44-1 breaks. -/
@@ -268,5 +395,20 @@ example : handle (run exSelf exRenamed) remote4 0 [{ qtype := 1, name := ['l', '
     { rcode := 3, answers := [] } := by decide +kernel
 example : known exSelf exRenamed ['l', 'h', '.'] = false ∧ known exSelf exEvs ['l', 'h', '.'] = true ∧
     formerOwnNames exSelf exRenamed = [['l', 'h', '.']] := by decide +kernel
+
+-- whole messages: a known name lacking the type keeps NOERROR whatever follows or precedes it (C44-2)
+example : parseQuery (run exSelf exEvs) remote4
+      [{ qtype := 15, name := ['h', 'o', 's', 't', '1', '.'], parsed := none },
+       { qtype := 15, name := ['n', 'o', 'p', 'e', '.'], parsed := none }] = { rcode := 0, answers := [] } := by
+  decide +kernel
+example : parseQuery (run exSelf exEvs) remote4
+      [{ qtype := 33, name := ['n', 'o', 'p', 'e', '.'], parsed := none },
+       { qtype := 15, name := ['n', 'o', 'b', 'o', 'd', 'y', '.'], parsed := none }] = { rcode := 3, answers := [] } := by
+  decide +kernel
+example : parseQuery (run exSelf exEvs) remote4
+      [{ qtype := 1, name := ['h', 'o', 's', 't', '1', '.'], parsed := none },
+       { qtype := 28, name := ['H', 'O', 'S', 'T', '1', '.'], parsed := none }] =
+    { rcode := 0, answers := [.a ['h', 'o', 's', 't', '1', '.'] { fam := .v4, val := 0x0a000005 },
+                              .aaaa ['H', 'O', 'S', 'T', '1', '.'] { fam := .v6, val := 5 }] } := by decide +kernel
 
 end Nebula.Props.C44
